@@ -1,6 +1,7 @@
 package main
 
 import (
+	"bytes"
 	"encoding/json"
 	"fmt"
 	"os"
@@ -133,6 +134,7 @@ func checkC09(r *core.Run) {
 	}
 	reports := make([]*c09Report, len(jobs))
 	errs := make([]string, len(jobs))
+	crashes := make([]string, len(jobs))
 	var wg sync.WaitGroup
 	sem := make(chan struct{}, core.Workers())
 	for i, j := range jobs {
@@ -159,9 +161,25 @@ func checkC09(r *core.Run) {
 				lp := filepath.Join(logDir, fmt.Sprintf("race%d", i))
 				cmd.Env = append(cmd.Env, "GORACE=log_path="+lp+" halt_on_error=0", "VSCHED_RACE_LOG="+lp)
 			}
+			var stderr bytes.Buffer
+			cmd.Stderr = &stderr
 			out, err := cmd.Output()
 			var rep c09Report
 			if jerr := json.Unmarshal(lastLine(out), &rep); jerr != nil {
+				if se := stderr.String(); strings.Contains(se, "fatal error:") || strings.Contains(se, "panic:") || strings.Contains(se, "goroutine ") {
+					// the Go runtime aborted the process (concurrent map access, unrecovered panic in a goroutine of the library)
+					first := se
+					if k := strings.Index(se, "fatal error:"); k >= 0 {
+						first = se[k:]
+					} else if k := strings.Index(se, "panic:"); k >= 0 {
+						first = se[k:]
+					}
+					if len(first) > 1500 {
+						first = first[:1500]
+					}
+					crashes[i] = first
+					return
+				}
 				errs[i] = fmt.Sprintf("%s %v: %v %v (%s)", bin, args, err, jerr, string(lastLine(out)))
 				return
 			}
@@ -174,6 +192,14 @@ func checkC09(r *core.Run) {
 	distinct := 0
 	var per []string
 	for i, rep := range reports {
+		if rep == nil && crashes[i] != "" {
+			line := crashes[i]
+			if k := strings.IndexByte(line, '\n'); k >= 0 {
+				line = line[:k]
+			}
+			r.Witness("process-aborted", jobs[i].sc, line, fmt.Sprintf("scenario %s: the concurrent calls made the Go runtime abort the process: %s", jobs[i].sc, crashes[i]), map[string]interface{}{"Scenario": jobs[i].sc, "Kind": "crash"})
+			continue
+		}
 		if rep == nil {
 			r.HarnessError("scheduler run failed: %s", errs[i])
 			continue
